@@ -168,8 +168,10 @@ fn parse_variable(pair: Pair<Rule>, pc: &mut PositionCalculator) -> Result<Posit
 fn parse_number(pair: Pair<Rule>, pc: &mut PositionCalculator) -> Result<Positioned<Number>> {
     debug_assert_eq!(pair.as_rule(), Rule::number);
     let pos = pc.step(&pair);
+    // `-0` is an IntValue denoting 0; serde_json reads it as the float -0.0
+    let text = if pair.as_str() == "-0" { "0" } else { pair.as_str() };
     Ok(Positioned::new(
-        pair.as_str().parse().map_err(|err| Error::Syntax {
+        text.parse().map_err(|err| Error::Syntax {
             message: format!("invalid number: {}", err),
             start: pos,
             end: None,
